@@ -1,4 +1,5 @@
 import Secp.Proofs.Ladder
+import Secp.Proofs.LadderTies
 import Secp.Proofs.LimbGroup
 import Secp.Proofs.ScalarApiTiesTests
 import Secp.Proofs.BitsSpec
@@ -62,5 +63,12 @@ example : Valid (identity F) := identity_valid limbLawful
 
 /-- the `IsOne` test the shortcut of `multiply` uses is the regenerated method of `scalar.go` -/
 theorem isOne_tied (s : L4) : GenScalarAPI.isOne s = Hand.Scalar.isOne s := ScalarApiTies.isOne_tie s
+
+/-- the loop of `multiply`, regenerated on every run (header, branch condition, the two branches with `Add`/`Double` inlined on
+shared cells), is the ladder step the invariant is proved about -/
+theorem ladder_tied {α : Type} (F : FieldOps α) (st : Pt α × Pt α) (bit : Nat) :
+    Hand.Element.ladderStep F st bit = (if bit = 0 then GenLadder.branchThen F st.1 st.2 else GenLadder.branchElse F st.1 st.2) ∧
+    GenLadder.loopHeader = "i := 255; i >= 0; i--" ∧ GenLadder.branchCondition = "bits[i] == 0" :=
+  ⟨LadderTies.ladderStep_tie F st bit, LadderTies.loop_shape.1, LadderTies.loop_shape.2.1⟩
 
 end C01
